@@ -713,6 +713,14 @@ def _fold_minmax(I, st, vals, is_max):
 
 def b_max(I, st, args, kw, node, is_max=True):
     if len(args) >= 2:
+        # an optional operand: None does not compare (TypeError) - obligation, then the value
+        un = []
+        for a_ in args:
+            if isinstance(a_, Opt):
+                I.safety(st, znot(a_.is_none), "operand-not-None", node)
+                a_ = a_.val
+            un.append(a_)
+        args = un
         if all(isinstance(a, (int, float)) for a in args):
             return max(args) if is_max else min(args)
         return _fold_minmax(I, st, list(args), is_max)
